@@ -174,6 +174,50 @@ func zeroLitRule(w *World, r *Report, rule string, roots []*ssa.Function) {
 			}
 		}
 	}
+	// the same hazard through a named result: a function that returns its struct result untouched (the zero value, its
+	// number fields nil) beside a nil error hands a nil number to a caller that was told everything went well
+	for _, fn := range fns {
+		res := fn.Signature.Results()
+		if res.Len() < 2 || !isErrorType(res.At(res.Len()-1).Type()) {
+			continue
+		}
+		all := ReachUnder(fn, func(ssa.Value) (bool, bool) { return false, false })
+		for _, ret := range Returns(fn) {
+			rv := retVals(ret)
+			if len(rv) != res.Len() || nonNilAt(rv[len(rv)-1], ret.Block(), 0) {
+				continue
+			}
+			for i := 0; i < len(rv)-1; i++ {
+				st, ok := rv[i].Type().Underlying().(*types.Struct)
+				if !ok {
+					continue
+				}
+				hasNum := false
+				for k := 0; k < st.NumFields(); k++ {
+					if isIntOrDec(st.Field(k).Type()) {
+						hasNum = true
+					}
+				}
+				if !hasNum {
+					continue
+				}
+				for _, alt := range all.LiveValues(rv[i]) {
+					c, isC := alt.(*ssa.Const)
+					if !isC || c.Value != nil {
+						continue
+					}
+					n++
+					key := fmt.Sprintf("zero %s returned beside a nil error @ %s", shortType(rv[i].Type()), funcName(fn))
+					seen[key]++
+					construct := key
+					if seen[key] > 1 {
+						construct = fmt.Sprintf("%s #%d", key, seen[key])
+					}
+					r.Bad(rule, construct, w.Pos(ret.Pos()), "the function can return its struct result untouched (zero value: the math.Int / sdk.Dec inside is nil) together with a nil error: a caller that goes on to use the number panics")
+				}
+			}
+		}
+	}
 	if n == 0 {
 		r.Unk(rule, "struct literals with number fields", "", "no literal of a module struct type with a math.Int / sdk.Dec field was found on the trees")
 	}
